@@ -114,6 +114,7 @@ class Contract:
     may_raise: Tuple[str, ...] = ()  # exceptions the callee may raise non-deterministically (assumed contracts)
     allow_raises: bool = False  # if False, any raising path of a verified target must satisfy ensures too
     concretize: Optional[Callable] = None  # (model, params, S) -> plain-data case for native replay
+    fresh_result: bool = False  # the returned object is newly allocated (proved as an obligation, used for distinctness at call sites)
     init_fields: Optional[Callable] = None  # __init__ contracts: (ctx) -> {field: initial value}; used for parallel allocation
 
 
@@ -374,6 +375,8 @@ def apply_contract(eng: Engine, st: State, c: Contract, args: List[V], kwargs: D
         res: V = params["self"]
     elif c.returns is None or c.returns.kind == "none":
         res = VNone()
+    elif c.fresh_result and c.returns.kind == "obj":
+        res = eng.alloc(cur, c.returns.name)
     else:
         res = fresh(eng.S, c.returns, "ret_" + c.key.split(".")[-1], facts)
     for f in facts:
@@ -522,6 +525,9 @@ def generate_vcs(reg: Registry, c: Contract, S: Optional[Sorts] = None) -> Tuple
             if c.ensures:
                 for (nm, f) in c.ensures(ctx):
                     vcs.append(VC("%s.%s" % (c.key, nm), f, list(s2.pc), pathname, 0, dict(params, __result__=result)))
+            if c.fresh_result and not raised and isinstance(result, VScalar) and result.ty.kind == "obj":
+                al0 = old_ghost.get("alloc", z3.Const("alloc0", z3.ArraySort(z3.IntSort(), z3.BoolSort())))
+                vcs.append(VC("%s.result-is-a-new-object" % c.key, z3.Not(al0[result.z]), list(s2.pc), pathname, 0, dict(params, __result__=result)))
         # obligations raised inside bodies (shared list)
         for p in st.pending:
             import re as _re
